@@ -64,6 +64,9 @@ def run(ctx):
         ctx.guard(completion_marker, ctx, cfg, fs)
         ctx.guard(colour_detection, ctx, cfg, fs)
         ctx.guard(width_agreement, ctx, cfg, fs)
+        import c10 as c10_
+        ctx.guard(c08_keep, ctx, lambda: c10_.best_effort(ctx, cfg, fs), lambda o: 'failure-scope' in o.key or 'failure-hands-back' in o.key, 'H.help-is-output')
+        ctx.guard(c08_keep, ctx, lambda: c10_.ambiguity(ctx, cfg, fs), lambda o: 'completion-known-after-tokenizing' in o.key, 'K.completion-marker')
         import c08, c09
         ctx.guard(c08.keep_only, ctx, lambda: c09.tokenizer(ctx, cfg, fs), lambda o: 'pos-only' in o.key, 'K.completion-marker')
         ctx.guard(run_flow, ctx, cfg, fs)
@@ -128,6 +131,10 @@ def completion_marker(ctx, cfg, fs):
     ctx.ob('K.completion-marker', 'check_next:rev-marker-recognised-with-and-without-name', ok,
            'for an item `--bpaf-complete-rev=...` (not a style marker) check_next returns %s on all %d paths, with the program name %s; the revision is recorded on %d path(s)' % (
                rets, len(paths), sorted(name_forks), len(wrote)), where=b.where(), cfg=cfg)
+
+def c08_keep(ctx, fn, pred, rule):
+    import c08
+    return c08.keep_only(ctx, fn, pred, rule)
 
 def width_agreement(ctx, cfg, fs):
     """run() prints with Info.max_width (print_message), everything reachable from run_inner (unwrap_stdout / unwrap_stderr,
